@@ -387,10 +387,14 @@ def run_analyse(case, ctx) -> None:
     m2(x2).backward(up)
     for (k, p), (_, p2) in zip(m.named_parameters(), m2.named_parameters()):
         if (p.grad is None) != (p2.grad is None) or (p.grad is not None and not bits_equal(p.grad, p2.grad)):
-            ctx.violation("C18:analyse_module-changes-gradients", f"parameter {k}: .grad after analyse_module differs from a plain forward/backward", source=src)
+            rel = float((p.grad - p2.grad).abs().max()) / max(float(p2.grad.abs().max()), 1e-30) if (p.grad is not None and p2.grad is not None) else 1.0
+            why = ("rounding-level:accumulation-order-at-a-tensor-with-3-or-more-consumers" if _max_fanout(prog) >= 3 else "rounding-level:unexplained") if rel <= 1e-6 else "values-changed"
+            ctx.violation(f"C18:analyse_module-changes-gradients:{why}", f"parameter {k}: .grad after analyse_module differs from a plain forward/backward (max rel diff {rel:.2e})", source=src)
             return
     if x.grad is None or not bits_equal(x.grad, x2.grad):
-        ctx.violation("C18:analyse_module-changes-gradients", "input gradient differs from a plain forward/backward", source=src)
+        rel = float((x.grad - x2.grad).abs().max()) / max(float(x2.grad.abs().max()), 1e-30) if x.grad is not None else 1.0
+        why = ("rounding-level:accumulation-order-at-a-tensor-with-3-or-more-consumers" if _max_fanout(prog) >= 3 else "rounding-level:unexplained") if rel <= 1e-6 else "values-changed"
+        ctx.violation(f"C18:analyse_module-changes-gradients:{why}", f"input gradient differs from a plain forward/backward (max rel diff {rel:.2e})", source=src)
         return
     # ScaleDict vs independently captured tensors
     gm = captured["gm"]
